@@ -3,6 +3,7 @@ package sim
 import (
 	"fmt"
 	"runtime/debug"
+	"sort"
 	"strings"
 
 	"github.com/pip-services3-gox/pip-services3-expressions-gox/calculator"
@@ -76,20 +77,41 @@ type instance struct {
 func (in *instance) freshLike() *instance {
 	f := newInstance(in.kind, in.opts)
 	for _, c := range in.configs {
-		f.configure(c)
+		f.configureAs(c, true)
 	}
 	f.lastText = in.lastText // the fresh instance has to parse it first (parsed stays false)
 	f.lastInput = in.lastInput
 	return f
 }
 
-// configure applies one of a few CSV tokenizer reconfigurations.
-func (in *instance) configure(which int) {
+// c05DefNames are the standard functions the default-collection edits replace or remove.
+var c05DefNames = []string{"Min", "Max", "Abs", "Sum", "If", "Sqrt", "Contains", "Empty", "Array", "Choose"}
+
+// configure applies one reconfiguration: of the CSV tokenizer, or of a calculator's collections.
+func (in *instance) configure(which int) { in.configureAs(which, false) }
+
+// configureAs: with canonical set (the fresh reference instance), reconfigurations that go through
+// a getter (read the current list, change it in place, hand it back) are replaced by a plain setter
+// call with the list that results.
+func (in *instance) configureAs(which int, canonical bool) {
 	if which < 0 {
 		which = -which
 	}
 	if in.calc != nil {
 		switch {
+		case which >= 400 && which < 500:
+			name := c05DefNames[(which-400)%len(c05DefNames)]
+			if which%3 == 1 {
+				name = strings.ToUpper(name)
+			}
+			df := in.calc.DefaultFunctions()
+			df.RemoveByName(name)
+			if which < 450 {
+				marker := -1000 - which
+				df.Add(functions.NewDelegatedFunction(name, func(params []*variants.Variant, ops variants.IVariantOperations) (*variants.Variant, error) {
+					return variants.VariantFromInteger(marker), nil
+				}))
+			}
 		case which == 100: // switch the operations manager
 			in.opsSafe = !in.opsSafe
 		case which >= 200 && which < 300: // add variables to the instance's own collection
@@ -115,7 +137,29 @@ func (in *instance) configure(which int) {
 	if !ok {
 		return
 	}
-	switch which % 9 {
+	switch which % 11 {
+	case 9: // the current separators, changed in place and handed back
+		if canonical {
+			t.SetFieldSeparators([]rune{'|'})
+		} else if cur := t.FieldSeparators(); len(cur) > 0 {
+			for i := range cur {
+				cur[i] = '|'
+			}
+			t.SetFieldSeparators(cur[:1])
+		} else {
+			t.SetFieldSeparators([]rune{'|'})
+		}
+	case 10: // the current quote symbols, changed in place and handed back
+		if canonical {
+			t.SetQuoteSymbols([]rune{'\''})
+		} else if cur := t.QuoteSymbols(); len(cur) > 0 {
+			for i := range cur {
+				cur[i] = '\''
+			}
+			t.SetQuoteSymbols(cur[:1])
+		} else {
+			t.SetQuoteSymbols([]rune{'\''})
+		}
 	case 6: // a quote symbol outside Latin-1
 		t.SetFieldSeparators([]rune{','})
 		t.SetQuoteSymbols([]rune{'«'})
@@ -461,7 +505,7 @@ func (in *instance) step(o Op, sets []VarSet, dry *stepStats) (res string, st st
 		}()
 		var err error
 		switch {
-		case o.Op == "reeval":
+		case o.Op == "reeval" || o.Op == "defreeval":
 			// evaluate the expression set last again, without setting it anew (a fresh instance has to parse it first)
 			if in.lastText == "" {
 				return "nothing-to-reevaluate", st
@@ -483,7 +527,29 @@ func (in *instance) step(o Op, sets []VarSet, dry *stepStats) (res string, st st
 			return fmt.Sprintf("set-err=%s|%s", ErrCode(err), ErrMessage(err)), st
 		}
 		prog := describeExprTokens(in.calc.ResultTokens())
-		v, err := in.calc.EvaluateUsingVariablesAndFunctions(vars, funcs)
+		var v *variants.Variant
+		if o.Op == "defeval" || o.Op == "defreeval" {
+			// through the calculator's own default collections: the values go into the default variables
+			// (created by the calculator or here), the functions are the - possibly edited - default ones
+			dv := in.calc.DefaultVariables()
+			names := make([]string, 0, len(vs))
+			for name := range vs {
+				if !strings.HasPrefix(name, "#") {
+					names = append(names, name)
+				}
+			}
+			sort.Strings(names)
+			for _, name := range names {
+				if have := dv.FindByName(name); have != nil {
+					have.SetValue(vs[name].ToVariant())
+				} else {
+					dv.Add(variables.NewVariable(name, vs[name].ToVariant()))
+				}
+			}
+			v, err = in.calc.Evaluate()
+		} else {
+			v, err = in.calc.EvaluateUsingVariablesAndFunctions(vars, funcs)
+		}
 		r := ""
 		switch {
 		case err != nil && v != nil:
@@ -620,7 +686,7 @@ func c05GenTask(r *Rand, kind string, faults bool, first, second int) TaskPlan {
 			o.Op = r.Pick([]string{"buffer", "stream", "manual", "manual", "buffer", "stream", "manual", "manual", "strings", "streamstrings"})
 			o.I = r.Intn(4)
 			if kind == "csvtok" && r.Bool(0.12) {
-				tp.Ops = append(tp.Ops, Op{Op: "config", I: r.Intn(9)})
+				tp.Ops = append(tp.Ops, Op{Op: "config", I: r.Intn(11)})
 			}
 			if r.Bool(0.08) && i > 0 {
 				o.Op = "rewind"
@@ -645,6 +711,12 @@ func c05GenTask(r *Rand, kind string, faults bool, first, second int) TaskPlan {
 				o.Op = "reeval"
 			case 5, 6:
 				o.Op = "pveval"
+			case 7:
+				o.Op = r.Pick([]string{"defeval", "defeval", "defreeval"})
+			case 8:
+				// edit the calculator's default function collection: replace (400..) or remove (450..) a standard function
+				tp.Ops = append(tp.Ops, Op{Op: "config", I: 400 + r.Intn(100)})
+				o.Op = r.Pick([]string{"defeval", "defreeval", "defreeval"})
 			}
 		}
 		switch {
@@ -656,6 +728,16 @@ func c05GenTask(r *Rand, kind string, faults bool, first, second int) TaskPlan {
 			o.S = c05Input(r, kind)
 			if i > 0 && r.Bool(0.15) {
 				o.S = tp.Ops[len(tp.Ops)-1].S // the same input as the step before (possibly through another entry point)
+			} else if i > 0 && r.Bool(0.15) {
+				// a near-twin of an earlier input of this history (one or two lexical edits apart: another letter case
+				// twin, an element emptied or cut), in either order
+				j := r.Intn(len(tp.Ops))
+				if tp.Ops[j].Op != "config" && tp.Ops[j].Op != "pveval" && tp.Ops[j].F == nil {
+					o.S = c05Damage(r, tp.Ops[j].S)
+					if r.Bool(0.5) {
+						o.S, tp.Ops[j].S = tp.Ops[j].S, o.S
+					}
+				}
 			}
 		}
 		if o.Op == "pveval" {
@@ -667,6 +749,9 @@ func c05GenTask(r *Rand, kind string, faults bool, first, second int) TaskPlan {
 		o.Set = r.Intn(2)
 		if faults && r.Bool(0.3) && o.Op != "strings" && o.Op != "streamstrings" {
 			o.F = c05Fault(r, kind, o.Op)
+			if (o.Op == "defeval" || o.Op == "defreeval") && o.F != nil && o.F.Kind != "op_error" {
+				o.F = nil // the default collections have no failing function or missing variable to offer
+			}
 			if o.F != nil && strings.HasPrefix(o.F.Kind, "fn_") {
 				name := "Faulty"
 				if o.F.Kind == "fn_error_plain" {
